@@ -76,7 +76,7 @@ class Patch:
 class RunMonitor:
     MAX_VIOL_PER_KEY = 3
 
-    def __init__(self, spec, oracles=None, fault=None, gp_fault=None, filter_script=None, construct_only=False, gp_update_fault=None):
+    def __init__(self, spec, oracles=None, fault=None, gp_fault=None, filter_script=None, construct_only=False, gp_update_fault=None, second_run=False):
         self.spec = spec
         self.P = gen.Problem(spec)
         self.want = set(oracles) if oracles is not None else set(ALL)
@@ -87,6 +87,7 @@ class RunMonitor:
         self.gp_updates_faulted = 0
         self.filter_script = filter_script  # C03 outcome injection
         self.construct_only = construct_only
+        self.second_run = second_run
         self.viol = []
         self.viol_count = {}
         self.cnt = {}
@@ -1163,7 +1164,7 @@ class RunMonitor:
 
     def _log_index(self):
         fl = self.fl
-        n = fl.X_max_idx + 1
+        n = fl.Xn + 1
         d = {}
         for i in range(n):
             d.setdefault(fl.X[i].tobytes(), []).append(i)
@@ -1218,7 +1219,7 @@ class RunMonitor:
     def _after_neighbors(self, fl, u, gp, options, optim_state, out):
         U, Y, S = out
         self.c("C15.neighbor_calls")
-        n = fl.X_max_idx + 1
+        n = fl.Xn + 1  # every logged evaluation (NOT the logger's own X_max_idx bookkeeping, which is part of what is checked)
         size = U.shape[0]
         ls = gp.temporary_data["len_scale"]
         ls_arr = np.asarray(ls, float)
@@ -1305,6 +1306,8 @@ class RunMonitor:
                 res = b.optimize()
                 self.result = res
                 rec["status"] = "ok"
+                if self.second_run:
+                    self._second_optimize(b, rec)
             except NonProgress as e:
                 rec["status"] = "nonprogress"
                 rec["exc"] = {"type": "NonProgress", "msg": str(e)}
@@ -1315,6 +1318,30 @@ class RunMonitor:
         finally:
             patch.restore()
         return self._finish(rec)
+
+    def _second_optimize(self, b, rec):
+        """optimize() called again on the same object (a user continuing a run): only the boundary oracles
+        (C01 box, C02 feasibility) stay armed - budget/result semantics of a continued run are not stated by
+        the properties - and an internal error is reported separately for C09"""
+        keep = self.want
+        n0 = len(self.calls)
+        self.want = self.want & {"C01", "C02"}
+        self.after_loop = False
+        self.phase = "second-run"
+        self.cur_poll = self.cur_search = None
+        try:
+            b.options["max_fun_evals"] = int(b.function_logger.func_count) + 30
+            b.optimize()
+            rec["second_status"] = "ok"
+        except NonProgress:
+            rec["second_status"] = "nonprogress"
+        except BaseException as e:
+            rec["second_status"] = "exception"
+            rec["second_exc"] = self._exc_info(e)
+        finally:
+            self.want = keep
+            rec["second_calls"] = len(self.calls) - n0
+            self.c("second_optimize_runs")
 
     def _exc_info(self, e):
         tb = traceback.extract_tb(e.__traceback__)
